@@ -122,6 +122,8 @@ SEMANTIC = {
     'ambiguous-constant': (['fa.p = %AMBIG', 'fa.p = (1, %AMBIG)', 'fa.p = (1,\n  %AMBIG\n  )'],
                            ValueError),
     'denylisted-parameter': (['fd.q = 1', 's/fd.q = 1'], ValueError),
+    # 'fb' matches m1.sub.fb and m2.fb: Gin reports the ambiguity with a KeyError
+    'ambiguous-selector': (['fb.p = 1', 's/fb.q = 2', 'fb:\n  p = 1'], KeyError),
     'bad-include': (["include 'no/such/file.gin'"], OSError),
     # "keeps its original exception type": importing a missing module raises ModuleNotFoundError
     'bad-import': (['import vf_no_such_module_xyz', 'from vf_no_such_pkg import thing'],
@@ -271,6 +273,18 @@ def observe(follow_up=True):
         gin.bind_parameter('fa.q', 'follow-up-bind')
         gin.parse_config("fa.r = 'follow-up'\nFOLLOW = 1\nimport string\n")
         out['follow'] = gin.config_str(show_provenance=True)
+        # per-file import tables: a later dynamic-registration text knows only its own imports,
+        # whatever files parsed (or failed) before it imported
+        for name in ('math', 'js', 'path', 'collections'):
+          try:
+            gin.parse_config(f'from __gin__ import dynamic_registration\n{name}.nosuch_attr.x = 1\n')
+            leaked = 'accepted'
+          except NameError:
+            leaked = None
+          except Exception as e:  # pylint: disable=broad-except
+            leaked = f'{type(e).__name__}: {e}'
+          require(leaked is None, 'import-name-visible-in-a-later-text',
+                  lambda: f'a text that does not import {name!r} used it: {leaked}')
         # direct expectation: the programmatic re-binding carries no location, so whatever
         # statement set fa.q before, no file:line may be attributed to it now; the two parsed
         # follow-up statements are attributed to their own lines
